@@ -118,6 +118,9 @@ def havoc_heap_for_loop(eng, s, fr, spec):
     fields are forgotten; otherwise the whole mutable heap (and the object invariant of the unit's objects is re-assumed)."""
     if not writes_heap(s.body):
         return
+    if spec is not None and spec.extra.get('heap_modifies') is not None:
+        H.havoc(eng, 'loop head', only=spec.extra['heap_modifies'])      # frame declared in the sidecar
+        return
     fields = simple_self_writes(eng, s.body, fr)
     if fields is not None:
         selfv = fr.lookup('self')
@@ -130,7 +133,7 @@ def havoc_heap_for_loop(eng, s, fr, spec):
             H.assume_invariant(eng, o)
 
 
-SAFE_LOCAL_METHODS = {'append', 'extend', 'format', 'encode', 'decode', 'get', 'items', 'values', 'keys'}
+SAFE_LOCAL_METHODS = {'append', 'add', 'extend', 'format', 'encode', 'decode', 'get', 'items', 'values', 'keys'}
 
 
 def simple_self_writes(eng, stmts, fr):
@@ -151,18 +154,32 @@ def simple_self_writes(eng, stmts, fr):
             elif isinstance(n, ast.Delete):
                 return None
             elif isinstance(n, ast.Call):
-                if eng.B.is_logging_call(n):
-                    continue
-                f = n.func
-                if isinstance(f, ast.Name) and (f.id in T.STRUCTS or f.id in ('len', 'isinstance', 'min', 'max', 'int')):
-                    continue
-                if isinstance(f, ast.Attribute) and f.attr in SAFE_LOCAL_METHODS and isinstance(f.value, ast.Name) \
-                        and f.value.id != 'self':
+                if pure_call(eng, n):
                     continue
                 return None
             elif isinstance(n, (ast.Yield, ast.YieldFrom)):
                 return None
     return fields
+
+
+PURE_NAMES = {'len', 'isinstance', 'min', 'max', 'int', 'type', 'str', 'repr', 'float', 'bool', 'abs', 'tuple', 'list',
+              'enumerate', 'zip', 'range', 'hasattr', 'sorted', 'set', 'dict'}
+
+
+def pure_call(eng, n):
+    """a call that cannot write the heap nor hand control to foreign code"""
+    if eng.B.is_logging_call(n):
+        return True
+    f = n.func
+    if isinstance(f, ast.Name):
+        return f.id in PURE_NAMES or f.id in T.STRUCTS or f.id.endswith('Error') or f.id in ('TopicAndPartition',)
+    if isinstance(f, ast.Attribute):
+        if f.attr in SAFE_LOCAL_METHODS and isinstance(f.value, (ast.Name, ast.Constant, ast.JoinedStr)) and \
+                getattr(f.value, 'id', None) != 'self':
+            return True
+        if f.attr in ('format', 'encode', 'decode') :
+            return True
+    return False
 
 
 def writes_heap(stmts):
@@ -171,13 +188,26 @@ def writes_heap(stmts):
             if isinstance(n, (ast.Assign, ast.AugAssign)):
                 tg = n.targets if isinstance(n, ast.Assign) else [n.target]
                 for t in tg:
-                    if isinstance(t, ast.Attribute) or (isinstance(t, ast.Subscript) and isinstance(t.value, ast.Attribute)):
-                        return True
+                    for t2 in (t.elts if isinstance(t, (ast.Tuple, ast.List)) else [t]):
+                        if isinstance(t2, ast.Attribute) or (isinstance(t2, ast.Subscript) and isinstance(t2.value, ast.Attribute)):
+                            return True
             if isinstance(n, ast.Delete):
                 return True
-            if isinstance(n, ast.Call) and isinstance(n.func, ast.Attribute):
+            if isinstance(n, (ast.Yield, ast.YieldFrom)):
+                return True
+            if isinstance(n, ast.Call) and not _pure_call_static(n):
                 return True
     return False
+
+
+def _pure_call_static(n):
+    class _E:
+        class B:
+            @staticmethod
+            def is_logging_call(x):
+                from . import builtins as BB
+                return BB.is_logging_call(x)
+    return pure_call(_E, n)
 
 
 # ---------------------------------------------------------------------------------------------- method dispatch
